@@ -130,6 +130,7 @@ class Cluster:
         self.fault_kinds = ("drop-before", "drop-after", "lose", "err")
         self.fault_apis = None  # None = all
         self.blackhole = False
+        self.isolated = set()  # owners (clients) currently cut off from every broker
         self.faults_enabled = True  # scenarios switch faults off while a client bootstraps (start() failing is not a property violation)
         self.fetch_batch_limit = None  # max batches per partition per fetch response (None = all)
         self.heartbeat_in_completing = NONE
@@ -196,7 +197,19 @@ class Cluster:
     def on_connect(self, conn):
         if not self.up.get(conn.node, False):
             return ConnectionRefusedError(f"broker {conn.node} is down")
+        if conn.owner in self.isolated:
+            return ConnectionRefusedError(f"{conn.owner} is cut off from the cluster")
         return None
+
+    def isolate(self, owner, on=True):
+        """Network partition of one client: its connections are reset and new ones refused until healed."""
+        if on:
+            self.isolated.add(owner)
+            for conn in list(self.world.net.conns):
+                if conn.owner == owner and not conn.closed:
+                    conn.reset()
+        else:
+            self.isolated.discard(owner)
 
     def on_conn_closed(self, conn):
         for fn in self.close_hooks:
@@ -891,10 +904,16 @@ class Cluster:
                 if "drop-after" in kinds:
                     out.append(Alt(f"drop-after:{lab}", "f", lambda ev=ev: ev.conn.reset()))
                 if "lose" in kinds:
-                    out.append(Alt(f"lose:{lab}", "f", lambda ev=ev: world.net.take(ev)))
+                    out.append(Alt(f"lose:{lab}", "f", lambda ev=ev: self._lose(world, ev)))
             elif ev.kind == "syn" and "refuse" in kinds:
                 out.append(Alt(f"refuse:{lab}", "f", lambda ev=ev: self._refuse(ev)))
         return out
+
+    def _lose(self, world, ev):
+        # TCP never drops one reply and delivers the next: a reply that is never delivered means the connection has stalled.
+        # Nothing further reaches the client on it until the client gives up (request timeout) and closes it.
+        world.net.take(ev)
+        ev.conn.stalled = True
 
     def _deliver_with_fault(self, ev, code):
         self.world.net.take(ev)
